@@ -59,6 +59,7 @@ type WindowOpts struct {
 	ForceRange   bool
 	ForceInstant bool
 	MaxSteps     int // default 35 (+ tail up to 130)
+	MinSteps     int // default 1
 	NoTail       bool
 	Long         bool // rarely up to 1200 steps
 }
@@ -93,7 +94,11 @@ func DrawWindow(t *rapid.T, o WindowOpts) Window {
 	if maxSteps == 0 {
 		maxSteps = 35
 	}
-	n := ir(t, 1, maxSteps, "nsteps")
+	minSteps := o.MinSteps
+	if minSteps < 1 {
+		minSteps = 1
+	}
+	n := ir(t, minSteps, maxSteps, "nsteps")
 	if !o.NoTail && chance(t, 1, 12, "tail") {
 		n = ir(t, 36, 130, "nsteps_tail")
 		if o.Long && chance(t, 1, 10, "longtail") {
